@@ -106,6 +106,58 @@ pub fn run(tier: Tier) -> i32 {
                     }
                 }
             }
+            // inflected / alias forms: every vocabulary word that validates on its own to a plain number b < 100 but is not
+            // the standard spelling of b (plurals, aliases) as the SECOND number: it may fuse with a no more than b's
+            // standard spelling may
+            if lo == 0 {
+                let mut forms: Vec<(String, u64)> = vec![];
+                // one-word alias spellings produced by the variant axes (zwo, één, septante, accent-less forms ...)
+                for (_, v) in spell::axes(l).into_iter().skip(1) {
+                    for b in 0..100u64 {
+                        let w = spell::spell(l, b, v);
+                        if !w.contains(' ') && w != sp[b as usize] && !forms.iter().any(|(x, _)| *x == w) && matches!(guard(|| text2num::text2digits(&w, &lang)), Ok(Ok(ref d)) if *d == b.to_string()) {
+                            forms.push((w, b));
+                        }
+                    }
+                }
+                // plural cardinals the lemmatizers strip (only where the library takes the word for the number)
+                for b in 1..=9u64 {
+                    let w = format!("{}s", sp[b as usize]);
+                    if matches!(guard(|| text2num::text2digits(&w, &lang)), Ok(Ok(ref d)) if *d == b.to_string()) && !forms.iter().any(|(x, _)| *x == w) {
+                        forms.push((w, b));
+                    }
+                }
+                for (w, b) in &forms {
+                    for a in 0..100u64 {
+                        acc.states += 1;
+                        acc.traces += 1;
+                        let s = format!("{} {}", sp[a as usize], w);
+                        let got = guard(|| replace_numbers_in_text(&s, &lang, 0.0)).unwrap_or_else(|p| p);
+                        let mut allowed: Vec<String> = vec![format!("{a} {b}")];
+                        let mut cat = nm[a as usize].clone();
+                        cat.extend(nm[*b as usize].iter().cloned());
+                        for (c, m) in &all_nm {
+                            if *m == cat {
+                                allowed.push(c.to_string());
+                            }
+                        }
+                        if a == 0 {
+                            allowed.push(format!("0{b}"));
+                        }
+                        if !allowed.contains(&got) {
+                            ctx.report(acc, Violation {
+                                lang: l.code().into(),
+                                entry: "replace_text".into(),
+                                input: s,
+                                threshold: Some(0.0),
+                                clause: format!("two complete numbers below 100, the second in the inflected or alias form {w:?} (= {b}): no fusion that the standard spelling of {b} would not allow"),
+                                expected: allowed.join(" | "),
+                                observed: got,
+                            });
+                        }
+                    }
+                }
+            }
             // the same pairs spoken as the fractional part of a decimal (languages whose fraction is read as a
             // number): the fraction is the first number or the allowed fusion, never another fusion
             if !matches!(l, L::En | L::De) {
